@@ -59,3 +59,10 @@ mod tests {
         let _handle = engine.create_session();
     }
 }
+
+/// Crate-private entry points re-exported for the verification harness
+/// (compiled only with `--cfg rip_verif`; see /verif/DESIGN.md §4.4).
+#[cfg(rip_verif)]
+pub mod verif_export {
+    pub use crate::session::verif_hooks as session;
+}
